@@ -1149,6 +1149,9 @@ class Interp:
             return [(("inf", -1 if str(e.args[0].value).startswith("-") else 1), st)]
         if fn == "cast" and len(e.args) == 2:
             return self.eval(e.args[1], st)
+        if fn == "bool" and len(e.args) == 1 and not e.keywords:
+            t, f, x = self.branch(e.args[0], st)
+            return [(("bool", True), s_) for s_ in t] + [(("bool", False), s_) for s_ in f] + [(None, s_) for s_ in x]
         if fn in _PURE_FUNCS or (fn and (fn.rsplit(".", 1)[0] in _PURE_ROOTS or fn.split(".")[0] in ("log", "_log", "logging", "warnings"))):
             return [((("top",) if vals is not None else None), r) for vals, r in self.eval_args(e.args, st)]
         if isinstance(e.func, ast.Name) and self.is_exception_class(e.func.id):
